@@ -1,6 +1,7 @@
 package engine
 
 import (
+	"fmt"
 	"go/token"
 	"go/types"
 	"strings"
@@ -38,12 +39,10 @@ func init() {
 	// lock bookkeeping as ghost state (used by `lock` obligations)
 	lockOp := func(held bool, rw string) intrinsicFn {
 		return func(e *Exec, st *State, fn *ssa.Function, args []*smt.Term, resType types.Type, pos token.Pos) *smt.Term {
-			k := "lock|" + args[0].String()
-			if len(k) < 200 {
-				st.Ghost[k] = smt.BoolConst(held)
-				if e.disc != nil {
-					e.disc.ghost[k] = true
-				}
+			k := fmt.Sprintf("lock|%d", args[0].ID)
+			st.Ghost[k] = smt.BoolConst(held)
+			if e.disc != nil {
+				e.disc.ghost[k] = true
 			}
 			return unitT()
 		}
@@ -179,7 +178,7 @@ func pureExternal(name string) bool {
 	for _, p := range []string{"strings.", "strconv.", "fmt.Sprint", "fmt.Sprintf", "unicode/utf8.", "unicode.", "path.", "path/filepath.Clean",
 		"errors.Is", "errors.As", "errors.Unwrap", "(*strings.Builder)", "bytes.Equal", "bytes.Compare", "bytes.IndexByte", "bytes.HasPrefix",
 		"time.Duration", "(time.Duration)", "(time.Time)", "time.Unix", "io/fs.FileMode", "(io/fs.FileMode)", "math.", "sort.Search",
-		"(reflect.Type)", "reflect.TypeOf", "hash/crc32.", "crypto/sha256.Sum256", "slices.", "encoding/hex.", "os.IsNotExist", "(*errors.", "(*fmt.wrapError)",
+		"(reflect.Type)", "reflect.TypeOf", "hash/crc32.", "crypto/sha256.Sum256", "encoding/hex.", "os.IsNotExist", "(*errors.", "(*fmt.wrapError)",
 		"internal/", "syscall.Errno", "(syscall.Errno)", "runtime.Caller", "runtime.FuncForPC", "runtime/debug.Stack", "(*runtime.Func)",
 	} {
 		if strings.HasPrefix(name, p) {
@@ -193,7 +192,7 @@ func pureExternal(name string) bool {
 func stdInline(name string) bool {
 	for _, p := range []string{"encoding/binary.littleEndian", "encoding/binary.bigEndian", "(encoding/binary.littleEndian)", "(encoding/binary.bigEndian)",
 		"(*sync/atomic.", "math/bits.RotateLeft", "math/bits.Reverse", "math/bits.Add64", "math/bits.Sub64", "math/bits.Mul64",
-		"(*sync.Once).Do", "sort.Slice", "unicode/utf8.RuneLen", "unicode/utf8.ValidRune",
+		"(*sync.Once).Do", "sort.Slice", "slices.Grow", "slices.Clone", "slices.Contains", "slices.Index", "unicode/utf8.RuneLen", "unicode/utf8.ValidRune",
 	} {
 		if strings.HasPrefix(name, p) {
 			return true
